@@ -261,7 +261,7 @@ func (v *verifier) RegisterRevocation(revocation credential.Revocation) error {
 	}
 
 	if err := v.store.StoreRevocation(revocation); err != nil {
-		return fmt.Errorf("unable to store revocation: %w", err)
+		return fmt.Errorf("unable to store revocation: %w", types.StorageError(err))
 	}
 	return nil
 }
